@@ -510,9 +510,44 @@ def confirm_and_report(chk, sc, module, cfgpath, cases_by_id, events, outs, reje
         msg = "%s rejected by the specification: implementation answered %s (%d rejected case(s) of this kind)" % (
             c.scheme()[:400], json.dumps(out)[:300], n)
         chk.report(key, msg, "%s_%s.json" % (label, re.sub(r"[^A-Za-z0-9]+", "_", key)[:70]),
-                   {"key": key, "call": c.scheme(), "case": {"op": c.op, "a": [lit(x) for x in c.a], "k": c.k, "s": c.s},
+                   {"key": key, "call": c.scheme(), "module": module, "fixbits": fixbits,
+                    "case": {"op": c.op, "a": [lit(x) for x in c.a], "k": c.k, "s": c.s},
                     "implementation_output": out, "event": events[c.id], "count": n,
                     "how": "the event was rejected by TLC; to re-judge it: write the 'event' object as one line to a file F and run "
                            "TRACE=F java -cp tla2tools.jar:CommunityModules-deps.jar tlc2.TLC -workers 1 -config <cfg: SPECIFICATION TraceSpec, "
                            "CONSTANTS W = 10 FixBits = %d, POSTCONDITION Accepted> spec/%s" % (fixbits, module)})
     return reported
+
+
+def unlit(t):
+    t = t.strip()
+    if t.startswith("#x"):
+        return Fraction(int(t[2:], 16))
+    return Fraction(t)
+
+
+def replay(path, prop):
+    """Re-run a saved failing call on the interpreter built from the current tree and let TLC judge the new recording."""
+    d = json.load(open(path))
+    print("saved finding  key=%s\n  call: %s\n  implementation answered (when saved): %s" % (
+        d["key"], d["call"], json.dumps(d.get("implementation_output"))[:400]))
+    with vlib.Scratch(prop.lower() + "-replay") as sc:
+        build = vlib.build_repo(sc.sub("build"))
+        build_numprobe(build, sc)
+        c = Case(d["case"]["op"], [unlit(x) for x in d["case"]["a"]], d["case"]["k"], d["case"]["s"])
+        number_cases([c])
+        outs, fixbits = run_driver(build, sc, [c], "replay")
+        ev = make_event(c, outs.get(c.id))
+        tr = sc.file("replay.ndjson")
+        vlib.write_ndjson(tr, [ev])
+        cfg = write_cfg(sc, "replay.cfg", {"FixBits": fixbits})
+        r = vlib.run_tlc(d["module"], cfg, sc.path, env={"TRACE": tr}, workers=1, timeout=600, heap="2g")
+        print("  implementation answers now: %s" % json.dumps(outs.get(c.id))[:400])
+        if r.ok:
+            print("TLC: ACCEPTED (the current tree satisfies the specification on this call)")
+            return 0
+        if _REJ.findall(r.out):
+            print("TLC: REJECTED by %s" % d["module"])
+            print("VIOLATION property=%s replay=%s" % (prop, path))
+            return 1
+        raise Broken("replay: TLC failed: %s" % (r.error or r.out[-800:]))
